@@ -112,7 +112,9 @@ class Pair:
             if (lo, up) not in self.ranges:
                 self.ranges.append((lo, up))
                 self.range_kind.append(k)
-        self.bounds = sorted({b for r in self.ranges for b in r})
+        # bounds the path must keep away from: the ranges' own bounds and their neighbours on the spacing grid (an
+        # add_liquidity_by_tick with off-grid ticks is trimmed to one of those)
+        self.bounds = sorted({b + k * self.sp for r in self.ranges for b in r for k in (-1, 0, 1)})
         self.path_kind = rng.choice(["walk", "walk", "jump", "calm", "flat", "anchors", "anchors"])
         step = max(3, self.sp * rng.choice([1, 2, 5]))
         raw_path = W.tick_path(rng, self.n, c, self.path_kind, self.bounds, step)
@@ -199,6 +201,14 @@ def gen_script(rng, pair, allow_estimate_state):
         if op == "add_tick":
             st.update(r=r, fb=rng.choice(AMOUNT_FRACS), fq=rng.choice(AMOUNT_FRACS), rev=rng.random() < 0.15,
                       tick_off=rng.choice([None, None, None, 0, 7, -13, 400]))
+            # off-grid range ticks, trimmed by the market to usable ticks: exactly half-way between two usable ticks
+            # (rounding must be mirror-symmetric there) or a few ticks off
+            raw = rng.choice([None] * 5 + ["half", "half", "small"])
+            h = pair.sp // 2
+            if raw == "half" and pair.sp % 2 == 0:
+                st["raw"] = rng.choice([(h, 0), (-h, 0), (0, h), (0, -h), (h, h), (-h, -h), (h, -h), (-h, h)])
+            elif raw == "small" and h >= 2:
+                st["raw"] = (rng.randint(-(h - 1), h - 1), rng.randint(-(h - 1), h - 1))
             n_added += 1
         elif op == "add_price":
             half = max(0, pair.sp // 2 - 2)
@@ -394,9 +404,14 @@ class Runner:
                     kw_tick_a = tk
                     cls = MR.price_vs_range(tk, *r_a) + "@tick-arg"
                     self.cur = (bar, si, name, cls)
+                if st.get("raw"):
+                    ta_lo, ta_up = r_a[0] + st["raw"][0], r_a[1] + st["raw"][1]
+                    lo, up = (-ta_up, -ta_lo) if self.mir else (ta_lo, ta_up)
+                    summ["offgrid"] = "half-way" if pair.sp // 2 in (abs(st["raw"][0]), abs(st["raw"][1])) else "small"
                 a, b = (up, lo) if st["rev"] else (lo, up)
                 res, acts = self.call(m.add_liquidity_by_tick, a, b, amount(st["fb"], bal_b), amount(st["fq"], bal_q), **kw)
-                summ["arg"] = f"b{_frac_cls(st['fb'])}/q{_frac_cls(st['fq'])}" + ("/rev" if st["rev"] else "") + ("/tickarg" if kw else "")
+                summ["arg"] = (f"b{_frac_cls(st['fb'])}/q{_frac_cls(st['fq'])}" + ("/rev" if st["rev"] else "") + ("/tickarg" if kw else "")
+                               + ("/offgrid-" + summ["offgrid"] if summ.get("offgrid") else ""))
             elif op == "add_price":
                 # base price falls when A's tick rises: lower price <-> A's upper tick
                 p_lo = MR.base_price_of_tick_a(r_a[1] + st["d_up"], pair.dq, pair.db)
